@@ -450,7 +450,39 @@ class Canon:
                 pass
         return (op, l, r)
 
+    @staticmethod
+    def _sequence_like(t):
+        """a string / list / tuple valued term: `+` on it is concatenation (order matters)"""
+        if not isinstance(t, tuple) or not t:
+            return False
+        if t[0] in ('str', 'fstr', 'concat', 'list', 'tuple', 'listcomp'):
+            return True
+        if t[0] == 'call' and isinstance(t[1], tuple):
+            h = t[1]
+            if h in (('name', 'str'), ('name', 'list'), ('name', 'tuple'), ('name', 'sorted'), ('name', 'repr')):
+                return True
+            if h[0] == 'attr' and h[2] in ('join', 'format', 'strip', 'lower', 'upper', 'replace', 'tolist', 'split'):
+                return True
+        return False
+
     def _add(self, parts):
+        if any(self._sequence_like(p) for p in parts):
+            seq = []
+            for p in parts:
+                if p[0] == 'concat':
+                    seq.extend(p[1])
+                elif p[0] == '+' and False:
+                    seq.extend(p[1])
+                else:
+                    seq.append(p)
+            # adjacent string constants are one constant
+            out = []
+            for q in seq:
+                if out and q[0] == 'str' and out[-1][0] == 'str':
+                    out[-1] = ('str', out[-1][1] + q[1])
+                else:
+                    out.append(q)
+            return out[0] if len(out) == 1 else ('concat', tuple(out))
         flat = []
         const = 0
         for p in parts:
